@@ -6831,6 +6831,20 @@ int64_t ExpressionEvaluator::evaluate_function_call_impl(const ASTNode *node) {
                 }
                 return_value = 0;
             }
+            // the value leaves through the declared result type: same range
+            // check as a store into a variable of that type (pointer results
+            // and non-integer result types are not concerned)
+            if (func && !func->return_types.empty() &&
+                ret.type != TYPE_POINTER && !ret.is_function_pointer) {
+                TypeInfo declared = func->return_types[0];
+                if (declared == TYPE_TINY || declared == TYPE_SHORT ||
+                    declared == TYPE_INT || declared == TYPE_LONG ||
+                    declared == TYPE_CHAR) {
+                    interpreter_.check_type_range(declared, return_value,
+                                                  func->name,
+                                                  func->is_unsigned);
+                }
+            }
             TypedValue typed_return = make_typed_from_return(return_value);
             capture_numeric_return(typed_return);
 
